@@ -292,7 +292,7 @@ def latmio_und_connected(R, itr, D=None, seed=None):
             D[n - v - 1, :] = np.append(u[v + 1:], u[:v + 1])
             D[v, :] = D[n - v - 1, :][::-1]
 
-    i, j = np.where(np.tril(R))
+    i, j = np.where(np.tril(R, -1))  # edges only: a self-connection is not a rewirable edge
     k = len(i)
     itr = itr * k  # not in place: a 0-d array passed as itr must stay as it was
 
@@ -423,7 +423,7 @@ def latmio_und(R, itr, D=None, seed=None):
             D[n - v - 1, :] = np.append(u[v + 1:], u[:v + 1])
             D[v, :] = D[n - v - 1, :][::-1]
 
-    i, j = np.where(np.tril(R))
+    i, j = np.where(np.tril(R, -1))  # edges only: a self-connection is not a rewirable edge
     k = len(i)
     itr = itr * k  # not in place: a 0-d array passed as itr must stay as it was
 
@@ -1332,7 +1332,7 @@ def randmio_und_connected(R, itr, seed=None):
 
     R = R.copy()
     n = len(R)
-    i, j = np.where(np.tril(R))
+    i, j = np.where(np.tril(R, -1))  # edges only: a self-connection is not a rewirable edge
     k = len(i)
     itr = itr * k  # not in place: a 0-d array passed as itr must stay as it was
 
@@ -1518,7 +1518,7 @@ def randmio_und(R, itr, seed=None):
     rng = get_rng(seed)
     R = R.copy()
     n = len(R)
-    i, j = np.where(np.tril(R))
+    i, j = np.where(np.tril(R, -1))  # edges only: a self-connection is not a rewirable edge
     k = len(i)
     itr = itr * k  # not in place: a 0-d array passed as itr must stay as it was
 
